@@ -24,6 +24,7 @@ RULE = (
     "runs (TrainLoss, ValLoss, EpochStop) on a tiny model with non-improving losses. A case = one configuration with all "
     "its histories; non-trivial: >=1 history in which the reference stops; distinct by configuration. evaluations = stop() calls monitored."
 )
+RULE += " Every enumerated history is run twice: with contiguous epoch labels and with labels that restart midway / stay constant / descend / jump (the decision is a function of the losses; the epoch number is a label)."
 RULE += " Real runs also count the optimisation steps against the stop decisions (stop() is consulted before every epoch, EpochStop(0) trains nothing). Also: special values {0.5, 2, inf, nan} and the fine alphabet {1e-3, 1e-3-1e-11, 1e-3-2e-11, 1e39} in histories one shorter, verbose modes, exact-fit and improving-then-plateau real runs."
 EXHAUSTIVE = {"quick": True, "thorough": True}
 ASSUMPTIONS = ["automaton vmon/ref/misc.py:PatienceAutomaton written from the statement", "losses over {-1,0,1,2} and min_delta in {0,0.5,1,1.5} are exact in every representation"]
@@ -43,6 +44,16 @@ SPECIAL = (0.5, 2, "inf", "nan")
 # losses that differ by less than float32 resolution, and one beyond the float32 range: a Python float / numpy.float64 loss is
 # compared as the double it is (a float32 or jax scalar carries the already rounded value, and the automaton sees that value)
 FINE = {"f0": 1e-3, "f1": 1e-3 - 1e-11, "f2": 1e-3 - 2e-11, "big": 1e39}
+# epoch labels handed to stop() along one history: every history is run with the contiguous labels and with one of the others
+LABELS = (
+    ("contiguous", lambda e, n: e),
+    ("from-one", lambda e, n: e + 1),
+    ("restart-midway", lambda e, n: e if e < (n + 1) // 2 else e - (n + 1) // 2),
+    ("constant", lambda e, n: 0),
+    ("descending", lambda e, n: n - e),
+    ("sparse", lambda e, n: 5 * e + 3),
+    ("resumed-late", lambda e, n: e if e == 0 else e + 40),
+)
 LEVELS = (-1, 0, 1, 2)  # 0 is a legitimate loss (a model that fits exactly); losses may also be negative
 
 
@@ -201,6 +212,7 @@ def _run_hist(case, ctx, ml):
     other = vals[1]
     key = {k: case[k] for k in ("cls", "patience", "min_delta", "rep", "maxlen")}
     viols, calls, n_hist, n_stop = [], 0, 0, 0
+    labels_seen = {}
     _mon.take()
     def all_histories():
         for L in range(1, case["maxlen"] + 1):
@@ -215,7 +227,9 @@ def _run_hist(case, ctx, ml):
             for hi, hist in enumerate(it.product(tuple(FINE), repeat=L)):
                 yield L, hi, hist
 
-    for L, hi, hist in all_histories():
+    n_sched = len(LABELS)
+    runs = ((L, hi, hist, sched) for L, hi, hist in all_histories() for sched in (0, 1 + (hi + L) % (n_sched - 1)))
+    for L, hi, hist, sched in runs:
         if True:
             n_hist += 1
             cond = cls(patience=case["patience"], min_delta=case["min_delta"], verbose=(hi % 2 if case["patience"] == 1 else 0))
@@ -223,10 +237,13 @@ def _run_hist(case, ctx, ml):
             _mon.register(cond, auto, monitored)
             seq = ([None] if (hi + L) % 2 == 0 else []) + [vals[v] for v in hist]
             stopped = False
+            labels_seen[LABELS[sched][0]] = labels_seen.get(LABELS[sched][0], 0) + 1
             for e, loss in enumerate(seq):
                 model = ("model", e)
                 tl, vl = (loss, None if loss is None else other) if monitored == "train_loss" else (None if loss is None else other, loss)
-                got = cond.stop(model, e, tl, vl, 0.0)
+                # the decision is a function of the loss sequence; the epoch number is a label (a warm restart, a resumed
+                # checkpoint or a curriculum loop hands the same object labels that restart, jump or repeat)
+                got = cond.stop(model, LABELS[sched][1](e, len(seq)), tl, vl, 0.0)
                 calls += 1
                 if got or auto.count > auto.patience:
                     stopped = True
@@ -239,7 +256,7 @@ def _run_hist(case, ctx, ml):
         if len(_mon.viol) > 20:
             break
     viols = dedup(_mon.take())
-    return result(key, viols, n_stop > 0, evals=calls, obs={"histories": n_hist, "histories_with_stop": n_stop, "stop_calls": calls},
+    return result(key, viols, n_stop > 0, evals=calls, obs={"histories": n_hist, "histories_with_stop": n_stop, "stop_calls": calls, **{"labels_" + k: v for k, v in labels_seen.items()}},
                   hist={"cls": case["cls"], "rep": case["rep"], "patience": case["patience"], "min_delta": case["min_delta"], "kind": "hist"},
                   sample={"case": case, "histories": n_hist, "example_history": [None, 3, 2, 2, 2]})
 
